@@ -135,7 +135,7 @@ def run(repo, res, tier):
     res.rule("RT-ORDER", "ordered collections keep their order; x,y <-> indices 0,1", 12)
     res.rule("RT-PREC", "the number formatter keeps precision.decimals fractional digits on every path", 2)
     precision_rule(repo, res)
-    res.rule("RT-KEY", "goal lanelets are keyed by the position of their goal state on both sides", 3)
+    res.rule("RT-KEY", "goal lanelets are keyed by the position of their goal state on both sides", 2)
     from ..keyrule import goal_table_keys, writer_goal_keys
 
     rmod_ = repo.mod("commonroad/common/reader/file_reader_xml.py")
@@ -146,8 +146,10 @@ def run(repo, res, tier):
         raise AnalysisError("GoalRegionFactory.create_from_xml_node / PlanningProblemXMLNode.create_node missing")
     for key, node, ok, why in goal_table_keys(grf.methods["create_from_xml_node"]):
         res.check("RT-KEY", "reader files goal lanelets under %s (%s)" % (norm(key), why), ok, rmod_, node, "GoalRegionFactory stores goal lanelets under %s" % norm(key), "goal lanelets are attached to another goal state than the one they were written for: " + why, qualname="GoalRegionFactory.create_from_xml_node")
-    for node, ok in writer_goal_keys(ppn.methods["create_node"]):
-        res.check("RT-KEY", "writer looks goal lanelets up with the index of the goal state (%s)" % norm(node)[:60], ok, wmod_, node, "PlanningProblemXMLNode consults %s" % norm(node)[:80], "the lanelets written with a goal state are those of another goal state", qualname="PlanningProblemXMLNode.create_node")
+    from ..keyrule import writer_goal_pairs
+
+    bad_ = writer_goal_pairs(repo, ppn, ppn.methods["create_node"], "StateXMLNode.create_goal_state_node", ("StateXMLNode.create_state_node",))
+    res.check("RT-KEY", "writer hands every goal state exactly its own goal lanelets (evaluated on three goal states)", not bad_, wmod_, ppn.methods["create_node"], "PlanningProblemXMLNode.create_node: %s" % "; ".join(bad_[:2]), "the lanelets written with a goal state are those of another goal state (or are inherited from an earlier one)", qualname="PlanningProblemXMLNode.create_node")
 
     cx = c03.Ctx(repo, res)
     w, xsd, wmod = cx.w, cx.xsd, cx.mod
